@@ -81,6 +81,7 @@ def run(ctx, rep):
     shared_options_share_their_defaults(ctx, rep)
     paths_are_not_respelled(ctx, rep)
     the_compiled_file_is_written(ctx, rep)
+    text_is_written_by_character(ctx, rep)
     function_table_writers_agree(F, rep)
     rep.assume("a character not compared against any constant by the reader behaves like the class representative 'x' (the reader touches "
                "characters only through comparisons with constants and char::is_whitespace)")
@@ -326,7 +327,7 @@ def paths_are_not_respelled(ctx, rep, rule="C04.path-spelling"):
                 rep.ob(rule, "%s does not fold `\\` into `/` on a platform where `\\` is an ordinary character" % mir.short(g.path), "violated",
                        "replace('\\\\', \"/\") on a module path: a source file named `a\\b.ms` runs (`run` keeps the module in memory under the rewritten key) but "
                        "`compile` + `execute` looks for `a/b.mmm` and fails", c.span, fn=g.path, key="%s|%s" % (rule, mir.short(g.path)))
-    rep.floor(rule + " text replacements looked at", n, 5)
+    rep.floor(rule + " text replacements looked at", n, 1)
     rep.ob(rule, "every str::replace of the four crates was looked at for the pattern ('\\', \"/\")", "ok", "%d calls" % n, None, key=rule + "|census")
 
 
@@ -348,6 +349,41 @@ def the_compiled_file_is_written(ctx, rep, rule="C04.output-written"):
     rep.ob(rule, "perform_file_io_out has no successful return that has not written (and flushed) the output", "violated" if free else "ok",
            ("an Ok return is reachable from the entry without the write: `compile` can leave the file on disk as it was, and `execute` runs that, "
             "while `run` runs the current source") if free else "%d flush / write sites, each Ok return behind one" % len(flushes), g.span, fn=g.path, key=rule)
+
+
+def text_is_written_by_character(ctx, rep, rule="C04.codec-text"):
+    """An instruction argument is text: the serializers (CompiledItem::repr, Instruction::repr and what they call) escape it character by character.
+    A writer that walks the *bytes* of the text and pushes each as a char (`b as char`) re-encodes everything that is not ASCII as Latin-1: `é` reaches
+    the file as `Ã©`, `execute` prints mojibake where `run` (whose entry module never goes through the file) prints the text.  So: no u8 -> char cast
+    in the serializers of the two crates."""
+    F = ctx.facts("default", ["bytecode", "compiler"])
+    roots = [g for g in F.all_fns() if g.kind != "Closure" and g.path.endswith(("CompiledItem::repr", "Instruction::repr"))]
+    rep.floor(rule + " serializers", len(roots), 1)
+    seen, work = {}, list(roots)
+    while work:
+        g = work.pop()
+        if g.path in seen:
+            continue
+        seen[g.path] = g
+        for b in [g] + F.closures_of(g):
+            seen.setdefault(b.path, b)
+            for c in b.calls():
+                h = F.fn(c.callee())
+                if h is not None and h.path.startswith(("compiler::", "bytecode::", "<compiler::", "<bytecode::")) and len(seen) < 40:
+                    work.append(h)
+    bad = []
+    for g in seen.values():
+        # values that come out of walking the bytes of a text
+        src = [c.dst["l"] for c in g.calls() if mir.strip_generics(c.callee()).endswith(("::bytes", "::as_bytes", "::into_bytes", "::as_bytes_mut")) and c.dst is not None]
+        der = g.derived(src, through_call=lambda c, idx: True) if src else {}
+        for bi, si, dst, rv, st in g.assigns():
+            if rv.get("cast") == "IntToInt" and (rv.get("ty") or rv.get("to")) == "char":
+                l = op_local(rv["op"]) if "op" in rv else None
+                if l is not None and l in der:
+                    bad.append("%s at %s" % (mir.short(g.path), st.get("sp")))
+    rep.ob(rule, "the bytecode serializers push text by character (no byte is cast to a char)", "violated" if bad else "ok",
+           ("u8 -> char casts in %s: a non-ASCII character in an argument that also needs escaping is written as its Latin-1 bytes" % sorted(set(bad))[:3]) if bad
+           else "%d functions under the serializers looked at" % len(seen), roots[0].span, fn=roots[0].path, key=rule)
 
 
 def panic_is_not_success(ctx, rep):
